@@ -1,5 +1,5 @@
 (* C09 — unification.  Only statements here; proofs in Proofs/ConvertProofs.v. *)
-From Cty Require Import Base Ty BigFloat Value Hash Ops Refine Walk Convert ConvertProofs.
+From Cty Require Import Base Ty BigFloat Value Hash Ops Refine Walk Convert ConvertProofs UnifyProofs.
 Open Scope Z_scope.
 
 Theorem C09_empty : forall unsafe, unify [] unsafe = Ok None.
@@ -17,3 +17,21 @@ Theorem C09_single_primitive : forall t unsafe, is_prim t = true ->
   exists f, c_unify (cfns_at (S f)) [t] unsafe = Ok (Some (t, [None])).
 Proof. exact unify_single_prim. Qed.
 Print Assumptions C09_single_primitive.
+
+(* the general case (types of different kinds, primitives): whenever it settles on a result, that result is one of the
+   given types (the one at index w of the preference order), there is one entry per input, and each entry is either
+   "nothing to convert" - the input is the chosen one or already of the result type - or exactly the conversion the
+   lookup returned from that input type to the result type.  For every list of types, both modes, whatever the lookup does. *)
+Theorem C09_general_case_sound : forall r tys unsafe want cs,
+  unify_generic r tys unsafe = Ok (Some (want, cs)) ->
+  exists w, want = nth w tys TDyn /\ length cs = length tys /\
+            forall k t, nth_error tys k = Some t -> exists c, nth_error cs k = Some c /\ conv_entry_ok r unsafe w want k t c.
+Proof. exact unify_generic_sound. Qed.
+Print Assumptions C09_general_case_sound.
+Definition c09_general_witness : bool := Eval vm_compute in
+  match unify [TStr; TNum; TBool] false with
+  | Ok (Some (t, cs)) => ty_eqb t TStr && Nat.eqb (length cs) 3
+  | _ => false
+  end.
+Example C09_general_case_nonvacuous : c09_general_witness = true.
+Proof. reflexivity. Qed.
